@@ -22,8 +22,9 @@ from sim.runner import Lane
 TEXTS = ["G1 X10 Y20", "M3 S1000", "G0 Z5   ", "\tG4 P1", "T1 M6", "G1 X1.5 Y-2.25 F1200", "M117 hello world",
          "G92 E0", "M400", "G28 X Y"]
 UNI = ["Ünïcödé ✓", "日本語のコメント", "naïve café", "π≈3.14159", "emoji 🛠 ok", "plain ascii", "tab\tinside", "trailing  "]
+PATH_KINDS = ("path", "pathnested", "relpath", "relnested")
 KINDS_FILES = ["path", "path", "pathnested", "bin", "bin", "text", "textnl", "bytesio", "stringio", "custom",
-               "console", "codecs", "tmptext", "ducktext"]
+               "console", "codecs", "tmptext", "ducktext", "relpath", "relnested"]
 
 
 def gen(seed, run, sub="files", tier="quick"):
@@ -68,7 +69,7 @@ def gen(seed, run, sub="files", tier="quick"):
         elif u < 0.92:
             ops.append(["observe"])
         else:
-            ops.append(["teardown"])
+            ops.append(["teardown"] if r.random() < 0.7 else ["teardown", False])
         k_ += 1
     ops.append(["flush"] if r.random() < 0.5 else ["observe"])
     ops.append(["teardown"])
@@ -176,7 +177,12 @@ def execute(scn, guide=None, keep=False):
         w.ndisc = 0
         buf = spec.get("buffering", -1)
         kd = w.kind
-        if kd in ("path", "pathnested"):
+        if kd in ("relpath", "relnested"):
+            # a bare relative file name (the form the documentation uses); cwd is the scratch dir
+            rel = spec["name"] + "-rel.gcode" if kd == "relpath" else os.path.join("rel", "sub", spec["name"] + ".gcode")
+            w.path = os.path.join(tmp, rel)
+            w.obj = FileWriter(rel)
+        elif kd in ("path", "pathnested"):
             w.path = os.path.join(tmp, "nested", "deeper", spec["name"] + ".gcode") if kd == "pathnested" \
                 else os.path.join(tmp, spec["name"] + ".gcode")
             w.obj = FileWriter(w.path)
@@ -253,7 +259,7 @@ def execute(scn, guide=None, keep=False):
     def check_equal(w, where):
         d = disk(w)
         if d is None:
-            if w.kind in ("path", "pathnested") and w.expected:
+            if w.kind in PATH_KINDS and w.expected:
                 V("file-missing", writer=w.spec["name"], where=where)
             return
         if d != w.expected:
@@ -303,7 +309,7 @@ def execute(scn, guide=None, keep=False):
                 if not w.registered:
                     continue
                 for b in new:
-                    if w.kind in ("path", "pathnested") and not w.open:
+                    if w.kind in PATH_KINDS and not w.open:
                         w.open = True
                         w.expected = b""        # connect() opens with 'wb+'
                     w.expected += b
@@ -349,7 +355,10 @@ def execute(scn, guide=None, keep=False):
                     nd0 = {id(w): sum(1 for x in w.obj.log if x[0] == "disconnect")
                            for w in reg if w.kind == "custom"}
                     r0d = sum(1 for x in r0.log if x[0] == "disconnect")
-                    g.teardown()
+                    if len(op) > 1:
+                        g.teardown(op[1])          # teardown(wait=False)
+                    else:
+                        g.teardown()
                     state["teardowns"] += 1
                     if sum(1 for x in r0.log if x[0] == "disconnect") != r0d + 1:
                         V("teardown-disconnect-count", writer="R0")
@@ -359,7 +368,7 @@ def execute(scn, guide=None, keep=False):
                             n1 = sum(1 for x in w.obj.log if x[0] == "disconnect")
                             if n1 != nd0[id(w)] + 1:
                                 V("teardown-disconnect-count", writer=w.spec["name"], got=n1 - nd0[id(w)])
-                        if w.kind in ("path", "pathnested"):
+                        if w.kind in PATH_KINDS:
                             if open_fds_of(w.path):
                                 V("teardown-file-left-open", writer=w.spec["name"])
                             w.open = False
@@ -397,9 +406,12 @@ def execute(scn, guide=None, keep=False):
                 except BaseException:
                     pass
 
+    old_cwd = os.getcwd()
+    os.chdir(tmp)
     try:
         k.run(main)
     finally:
+        os.chdir(old_cwd)
         sys.stdout = old_stdout
         for w in pool:
             if w.stream is not None and w.path is not None and not w.stream.closed:
